@@ -879,7 +879,133 @@ fn arb_step() -> impl Strategy<Value = Step> {
     ]
 }
 
+// -------------------------------------------------------------------------------------------
+// (d) the trapped signal arrives again while its own action runs: the action is not re-entered,
+// it runs once more after the running one has finished - whatever construct the action is made of
+
+#[derive(Clone, Debug, PartialEq, Eq, Hash, Serialize, Deserialize)]
+pub struct ReenterCase {
+    /// how the action's commands are wrapped: 0 flat, 1 for, 2 while, 3 eval, 4 braces, 5 if,
+    /// 6 function call, 7 sourced file, 8 case, 9 for inside eval, 10 until, 11 nested loops
+    pub wrap: u8,
+    /// how the first delivery is made: 0 `kill`, 1 `(kill)`, 2 `kill | st 0`, 3 from a function
+    pub deliver: u8,
+    /// the action sends the signal to the shell this many times (all while it runs)
+    pub resend: u8,
+    pub sameline: bool,
+    pub sched: Option<u64>,
+}
+
+fn check_reenter(c: &ReenterCase) -> Outcome {
+    let resend = (c.resend % 2) + 1;
+    // `cnt r 1` succeeds once per shell process: only the first run of the action re-sends
+    let sends: String = (0..resend).map(|_| "kill -s USR1 $$; ").collect();
+    let body = format!("mark B; if cnt r 1; then {sends}fi; mark M; mark E");
+    let mut head = String::new();
+    let mut files = vec![];
+    let action = match c.wrap % 12 {
+        0 => body.clone(),
+        1 => format!("for i in 1; do {body}; done"),
+        2 => format!("while :; do {body}; break; done"),
+        3 => format!("eval \"{body}\""),
+        4 => format!("{{ {body}; }}"),
+        5 => format!("if :; then {body}; fi"),
+        6 => {
+            head.push_str(&format!("fa() {{ {body}; }}\n"));
+            "fa".to_string()
+        }
+        7 => {
+            files.push(("/work/act".to_string(), vsys::FileSpec::Regular { content: body.replace("; ", "\n") + "\n", mode: 0o644, exec: false }));
+            ". ./act".to_string()
+        }
+        8 => format!("case x in x) {body};; esac"),
+        9 => format!("eval \"for i in 1; do {body}; done\""),
+        10 => format!("until {body}; do :; done"),
+        _ => format!("for i in 1; do while :; do {body}; break; done; done"),
+    };
+    // the body contains `$$`, harmless to expand at definition time inside the double quotes of
+    // `eval "..."`; the trap operand itself is single-quoted
+    let mut script = format!("{head}trap '{action}' USR1\nhk() {{ kill -s USR1 $$; }}\n");
+    let steps = [
+        "mark 1".to_string(),
+        match c.deliver % 4 {
+            0 => "kill -s USR1 $$".to_string(),
+            1 => "(kill -s USR1 $$)".to_string(),
+            2 => "kill -s USR1 $$ | st 0".to_string(),
+            _ => "hk".to_string(),
+        },
+        "mark 2".to_string(),
+    ];
+    script.push_str(&steps.join(if c.sameline { "; " } else { "\n" }));
+    script.push('\n');
+    let mut s = vsys::Setup::script(&script);
+    s.files.extend(files);
+    if let Some(seed) = c.sched {
+        s.chooser = Chooser::Seeded(seed);
+        s.preempt = true;
+    }
+    let r = vsys::run(&s);
+    let ctx = |m: String| format!("{m}\nsched {:?}\nscript:\n{script}stderr: {:?}", c.sched, r.stderr);
+    if let Some(p) = &r.panic {
+        return Outcome::fail(ctx(format!("panic: {p}")));
+    }
+    if r.log.deadlock || !r.finished {
+        return Outcome::fail(ctx("shell did not finish".into()));
+    }
+    let got: Vec<String> = r.main_trace().iter().map(|t| t.args[0].clone()).collect();
+    // the deliveries made while the action runs may coalesce into one pending signal (POSIX does
+    // not queue ordinary signals): the action runs once more for them, possibly once per delivery
+    let runs_min = 2;
+    let runs_max = 1 + resend as usize;
+    let mut ok = false;
+    for runs in runs_min..=runs_max {
+        let mut want = vec!["1".to_string()];
+        for _ in 0..runs {
+            want.extend(["B", "M", "E"].map(String::from));
+        }
+        want.push("2".into());
+        if got == want {
+            ok = true;
+        }
+    }
+    if !ok {
+        return Outcome::fail(ctx(format!(
+            "commands run: {got:?}; expected 1, then the action's B M E {runs_min}{} times without interleaving (the signal arrived again while its action ran: the action must finish and then run again), then 2",
+            if runs_max > runs_min { format!(" to {runs_max}") } else { String::new() }
+        )));
+    }
+    Outcome::pass(true).class(match c.wrap % 12 {
+        0 => "action-flat",
+        1 | 2 | 10 | 11 => "action-in-loop",
+        3 | 9 => "action-in-eval",
+        6 => "action-in-function",
+        7 => "action-in-sourced-file",
+        _ => "action-in-compound-command",
+    })
+}
+
+pub static REENTER: Driver<ReenterCase> = Driver::new("C11", "reenter", check_reenter);
+
+fn reenter_cases(seeds: u64, base: u64) -> Vec<ReenterCase> {
+    let mut v = vec![];
+    for wrap in 0..12u8 {
+        for deliver in 0..4u8 {
+            for resend in 0..2u8 {
+                for sameline in [false, true] {
+                    v.push(ReenterCase { wrap, deliver, resend, sameline, sched: None });
+                    for k in 0..seeds {
+                        v.push(ReenterCase { wrap, deliver, resend, sameline, sched: Some(base.wrapping_mul(1000003).wrapping_add(k * 7919 + wrap as u64 * 31 + deliver as u64)) });
+                    }
+                }
+            }
+        }
+    }
+    v
+}
+
 pub fn run(ctx: &Ctx, st: &mut Stats) {
+    // (d) re-entrance
+    REENTER.run_list_par(ctx, st, reenter_cases(ctx.tier.pick(4, 60), ctx.seed));
     // (a) exhaustive histories
     let alpha = op_alphabet();
     let n = alpha.len() as u64;
@@ -953,6 +1079,7 @@ pub fn replay(driver: &str, case: &serde_json::Value) -> Result<(Outcome, Option
         "history" => HIST.replay_known(case),
         "delivery" => DELIVER.replay_known(case),
         "chain" => CHAIN.replay_known(case),
+        "reenter" => REENTER.replay_known(case),
         _ => Err(format!("unknown driver {driver}")),
     }
 }
